@@ -7,7 +7,7 @@ import Splipy.Lemmas.C17Group
 # C18 — `ifem_format` is a bijection onto the IFEM codes, `connections` lists every interface once
 -/
 
-namespace Splipy.MP
+namespace Splipy.MP.C18L
 
 /-! ## `ifem_format` -/
 
@@ -225,4 +225,4 @@ theorem topNbrs_nodup (sm : SplineModel) (hinj : ∀ a ∈ sm.tops, ∀ b ∈ sm
   intro a ha b hb hab
   exact hinj a (hmem sub a (List.mem_dedup.1 ha)) b (hmem sub b (List.mem_dedup.1 hb)) hab
 
-end Splipy.MP
+end Splipy.MP.C18L
